@@ -306,7 +306,7 @@ class Device(object):
                     return
                 hdr = bytes(self.rxbuf[:W.HEADER])
                 del self.rxbuf[:W.HEADER]
-                probs = W.header_problems(hdr)
+                probs = W.header_problems(hdr, self.maxdata)
                 if probs:
                     self.c02.append('bad header %s: %s' % (hdr.hex(), '; '.join(probs)))
                     self.broken = 'framing'
@@ -806,7 +806,10 @@ class Device(object):
             if w is None:
                 w = p.cmd ^ (0x20 << (8 * (c.get('off', 0) % 4)))
             b[0:4] = struct.pack('<I', w)
-            b[20:24] = struct.pack('<I', w ^ 0xFFFFFFFF)
+            if not c.get('keep_magic'):
+                b[20:24] = struct.pack('<I', w ^ 0xFFFFFFFF)
+            else:
+                self.probe('corrupt_cmd_magic_intact')      # only the command word was damaged in transit: the magic still names the original command
             p.note = 'corrupt-cmd'
             self.probe('corrupt_cmd')
             how = c.get('payload')
@@ -1164,7 +1167,9 @@ class SyncService(object):
                 dev.q_close(self.s, now)
                 dev.probe('recv_fail_then_close')
             return
-        if bad:
+        if bad == 'STAT+':
+            out += struct.pack('<IIII', W.mkid(b'STAT'), 33188, 4096, 1500000000)
+        elif bad:
             out += struct.pack('<II', W.mkid(bad.encode()), 0)
         else:
             out += W.sync_done(0)
@@ -1255,7 +1260,10 @@ class SyncService(object):
         self.state = 'idle'
         self.cur_hdrlen = 8
         bad = dev.spec.get('bad_record', {}).get('send')
-        if bad:
+        if bad == 'STAT+':
+            # a complete STAT record (id, mode, size, mtime) where a status is due
+            self._reply(struct.pack('<IIII', W.mkid(b'STAT'), 33188, 4096, 1500000000), now, kind='status')
+        elif bad:
             self._reply(struct.pack('<II', W.mkid(bad.encode()), 0), now, kind='status')
         else:
             self._reply(W.sync_okay(), now, kind='status')
